@@ -200,9 +200,13 @@ impl StdUnix { #[verifier::external_body] pub fn set_nonblocking(&self, b: bool)
 pub enum StdStream2 { Tcp(u8), Unix(StdUnix), Invalid }
 pub struct Settings2 { pub std_stream: Option<StdStream2> }
 // idioms: `path.contains(':')`, `percent_decode(path.as_bytes()).decode_utf8_lossy()` (RFC 3986 percent-decoding)
-pub uninterp spec fn has_colon(s: &str) -> bool;
+// `s.contains(':')` on a &str or a String: by content
+pub open spec fn has_colon_v(s: Seq<char>) -> bool { s.contains(':') }
+pub open spec fn has_colon(s: &str) -> bool { has_colon_v(s@) }
+pub trait ContainsColon { fn verif_contains_colon(&self) -> bool; }
+impl ContainsColon for str { #[verifier::external_body] fn verif_contains_colon(&self) -> (r: bool) ensures r == has_colon_v(self@) { unimplemented!() } }
+impl ContainsColon for String { #[verifier::external_body] fn verif_contains_colon(&self) -> (r: bool) ensures r == has_colon_v(self@) { unimplemented!() } }
 pub uninterp spec fn percent_decoded(s: &str) -> Seq<char>;
-#[verifier::external_body] pub fn verif_contains_colon(s: &str) -> (r: bool) ensures r == has_colon(s) { unimplemented!() }
 #[verifier::external_body] pub fn verif_percent_decode_lossy(s: &str) -> (r: String) ensures r@ == percent_decoded(s) { unimplemented!() }
 pub struct Conn { pub ct: ConnType }
 impl Conn { #[verifier::external_body] pub fn conn_pair(ct: ConnType) -> (r: Conn) ensures r.ct == ct { unimplemented!() } }
@@ -210,24 +214,24 @@ pub enum LdapError2 { EmptyUnixPath, PortInUnixPath, MismatchedStreamType, Io(u8
 impl vstd::std_specs::convert::FromSpecImpl<LdapError> for LdapError2 { open spec fn obeys_from_spec() -> bool { false } open spec fn from_spec(e: LdapError) -> LdapError2 { LdapError2::Io(0) } }
 impl From<LdapError> for LdapError2 { #[verifier::external_body] fn from(e: LdapError) -> (r: LdapError2) { unimplemented!() } }
 
+pub open spec fn unix_path(url: &Url) -> &'static str { match url.host_of() { Some(h) => h, None => "" } }
 //@lift name=new_unix file=src/conn.rs fn=new_unix nth=1
 //@ sub "fn new_unix(url: &Url, settings: LdapConnSettings) -> Result<(Self, Ldap)>" => "fn new_unix(url: &Url, settings: Settings2) -> core::result::Result<Conn, LdapError2>"
 //@ sub "StdStream::" => "StdStream2::" count=*
 //@ sub "LdapError::" => "LdapError2::" count=*
 //@ sub "path.is_empty()" => "verif_is_empty(path)"
-//@ sub "path.contains(':')" => "verif_contains_colon(path)"
+//@ sub ".contains(':')" => ".verif_contains_colon()" count=*
 //@ sub "let dec_path = percent_decode(path.as_bytes()).decode_utf8_lossy();" => "let dec_path = verif_percent_decode_lossy(path);"
 //@ sub "dec_path.as_ref()" => "dec_path.as_str()" count=*
 //@ sub "Self::conn_pair(" => "Conn::conn_pair("
 //@ ret r
 //@ spec
     ensures
-        settings.std_stream is None ==> ({
-            let path: &str = match url.host_of() { Some(h) => h, None => "" };
-            if str_empty(path) { r matches Err(LdapError2::EmptyUnixPath) } //# C18.empty_ldapi_path_is_an_error
-            else if has_colon(path) { r matches Err(LdapError2::PortInUnixPath) } //# C18.port_bearing_ldapi_path_is_an_error
-            else if unix_connect_ok(percent_decoded(path)) { r matches Ok(c) && (c.ct matches ConnType::Unix(st) && st.path@ == percent_decoded(path)) } //# C18.ldapi_connects_to_the_percent_decoded_socket_path
-            else { r is Err } }),
+        (settings.std_stream is None && str_empty(unix_path(url))) ==> r matches Err(LdapError2::EmptyUnixPath), //# C18.empty_ldapi_path_is_an_error
+        (settings.std_stream is None && !str_empty(unix_path(url)) && has_colon(unix_path(url))) ==> r matches Err(LdapError2::PortInUnixPath), //# C18.port_bearing_ldapi_path_is_an_error
+        (settings.std_stream is None && !str_empty(unix_path(url)) && !has_colon(unix_path(url)) && unix_connect_ok(percent_decoded(unix_path(url))))
+            ==> (r matches Ok(c) && (c.ct matches ConnType::Unix(st) && st.path@ == percent_decoded(unix_path(url)))), //# C18.ldapi_connects_to_the_percent_decoded_socket_path
+        (settings.std_stream is None && !str_empty(unix_path(url)) && !has_colon(unix_path(url)) && !unix_connect_ok(percent_decoded(unix_path(url)))) ==> r is Err, //# C18.an_unreachable_socket_is_an_error
         // a pre-opened stream is used only if its type matches the scheme
         (settings.std_stream matches Some(StdStream2::Unix(_))) ==> (r matches Ok(c) ==> (c.ct matches ConnType::Unix(st) && st.from_std)),
         (settings.std_stream matches Some(StdStream2::Tcp(_))) || (settings.std_stream matches Some(StdStream2::Invalid)) ==> r matches Err(LdapError2::MismatchedStreamType), //# C18.mismatched_pre_opened_stream_is_an_error
